@@ -320,7 +320,7 @@ func init() {
 		Bubble: true,
 		Cases: func(tier string) int {
 			if tier == "thorough" {
-				return 40000
+				return 100000
 			}
 
 			return 3000
